@@ -10,50 +10,6 @@ import FmtModel.Lemmas.VerOrder
 namespace C07
 open Ver Py Std
 
-instance {α : Type} [Ord α] [TransOrd α] : TransOrd (Sent α) :=
-  inferInstanceAs (TransCmp (compareOn Sent.rank))
-
-/-- what each operator answers for a three-way result -/
-def opHolds : Op → Ordering → Bool
-  | .eq, o => o == .eq
-  | .ne, o => o != .eq
-  | .lt, o => o == .lt
-  | .le, o => o != .gt
-  | .gt, o => o == .gt
-  | .ge, o => o != .lt
-
-/-- every operator of `a ∘ b` is defined (no exception) and is read off one three-way result -/
-theorem rich_spec {a b : Obj} {ka kb : AKey} (hc : a.cls = b.cls)
-    (ha : akey a = .ok ka) (hb : akey b = .ok kb) :
-    ∃ o, ka.cmp kb = some o ∧ ∀ op, richCmp op a (.obj b) = .ok (opHolds op o) := by
-  obtain ⟨o, ho, hcmp⟩ := compare_obj hc ha hb
-  refine ⟨o, ho, ?_⟩
-  intro op
-  simp only [richCmp, hcmp, Except.map]
-  cases o <;> cases op <;> simp [ordInt, opHolds]
-
-theorem cmp_swap {ka kb : AKey} {o : Ordering} (h : ka.cmp kb = some o) : kb.cmp ka = some o.swap := by
-  cases ka <;> cases kb <;> simp [AKey.cmp] at h ⊢ <;> (subst h; exact OrientedOrd.eq_swap)
-
-theorem cmp_refl (ka : AKey) : ka.cmp ka = some .eq := by
-  cases ka <;> simp [AKey.cmp, ReflCmp.compare_self]
-
-theorem cmp_trans_lt {ka kb kc : AKey} (h1 : ka.cmp kb = some .lt) (h2 : kb.cmp kc = some .lt) :
-    ka.cmp kc = some .lt := by
-  cases ka <;> cases kb <;> cases kc <;> simp [AKey.cmp] at h1 h2 ⊢ <;> exact TransCmp.lt_trans h1 h2
-
-theorem cmp_eq_left {ka kb kc : AKey} {o : Ordering} (h1 : ka.cmp kb = some .eq) (h2 : kb.cmp kc = some o) :
-    ka.cmp kc = some o := by
-  cases ka <;> cases kb <;> cases kc <;>
-    simp only [AKey.cmp, Option.some.injEq, reduceCtorEq] at h1 h2 ⊢ <;>
-    (rw [TransCmp.congr_left (cmp := compare) h1]; exact h2)
-
-theorem cmp_eq_right {ka kb kc : AKey} {o : Ordering} (h1 : ka.cmp kb = some o) (h2 : kb.cmp kc = some .eq) :
-    ka.cmp kc = some o := by
-  cases ka <;> cases kb <;> cases kc <;>
-    simp only [AKey.cmp, Option.some.injEq, reduceCtorEq] at h1 h2 ⊢ <;>
-    (rw [← TransCmp.congr_right (cmp := compare) h2]; exact h1)
-
 section Laws
 variable {a b c : Obj} {ka kb kc : AKey}
 
@@ -141,19 +97,6 @@ end Laws
 
 -- equal versions have equal hashes ---------------------------------------------------------------
 
-instance {α : Type} [Ord α] [LawfulEqOrd α] : LawfulEqOrd (Sent α) where
-  compare_self {a} := by cases a <;> simp [cmp_nn, cmp_ii, cmp_vv, ReflCmp.compare_self]
-  eq_of_compare {a b} h := by
-    cases a <;> cases b <;> simp_all [cmp_nn, cmp_nv, cmp_ni, cmp_vn, cmp_vv, cmp_vi, cmp_in, cmp_iv, cmp_ii]
-
-theorem cmp_eq_imp_eq {ka kb : AKey} (h : ka.cmp kb = some .eq) : ka = kb := by
-  cases ka <;> cases kb <;> simp only [AKey.cmp, Option.some.injEq, reduceCtorEq] at h <;>
-    exact congrArg _ (LawfulEqOrd.eq_of_compare h)
-
-theorem hashRepr_eq_key (o : Obj) : hashRepr o = key o := by
-  unfold hashRepr key
-  cases o.cls <;> rfl
-
 /-- `a == b → hash(a) == hash(b)`: equal objects feed identical values to `hash` -/
 theorem C07_hash {a b : Obj} {ka kb : AKey} (hab : a.cls = b.cls) (ha : akey a = .ok ka) (hb : akey b = .ok kb)
     (h : richCmp .eq a (.obj b) = .ok true) : hashRepr a = hashRepr b := by
@@ -166,46 +109,6 @@ theorem C07_hash {a b : Obj} {ka kb : AKey} (hab : a.cls = b.cls) (ha : akey a =
   rw [hashRepr_eq_key, hashRepr_eq_key, key_eq_akey, key_eq_akey, ha, hb]
 
 -- spellings ----------------------------------------------------------------------------------------
-
-theorem argInt_nat (n : Nat) : argInt (natArg n) = .ok (n : Int) := rfl
-theorem argIntOr0_nat (n : Nat) : argIntOr0 (natArg n) = .ok (n : Int) := by
-  unfold argIntOr0 natArg Arg.truthy
-  by_cases h : n = 0
-  · subst h; rfl
-  · have : ((n : Int) != 0) = true := by simp; omega
-    simp [this, argInt]
-theorem nonNeg_nat (n : Nat) : nonNeg (n : Int) = .ok n := by
-  unfold nonNeg
-  have : ¬ ((n : Int) < 0) := by omega
-  simp [this]
-theorem argOptStr_optArg (p : Option Str) : argOptStr (optArg p) = p := by cases p <;> rfl
-
-theorem initBase_nat (a b c : Nat) : initBase (natArg a) (natArg b) (natArg c) = .ok (a, b, c) := by
-  simp [initBase, argInt_nat, argIntOr0_nat, nonNeg_nat, bind, Except.bind, pure, Except.pure]
-
-/-- `cls(*b.to_tuple())` has the key of `b` -/
-theorem construct_toArgs (b : Obj) :
-    ∃ b', construct b.cls b.toArgs = .ok b' ∧ b'.cls = b.cls ∧ akey b' = akey b := by
-  cases hc : b.cls with
-  | base =>
-    refine ⟨{ cls := .base, major := b.major, minor := b.minor, patch := b.patch }, ?_, rfl, ?_⟩
-    · simp [construct, Obj.toArgs, hc, mkBase, initBase_nat, bind, Except.bind, pure, Except.pure]
-    · simp [akey, hc, baseKey]
-  | sem =>
-    refine ⟨{ cls := .sem, major := b.major, minor := b.minor, patch := b.patch, pre := b.pre, build := b.build }, ?_, rfl, ?_⟩
-    · simp [construct, Obj.toArgs, hc, mkSem, initBase_nat, argOptStr_optArg, bind, Except.bind, pure, Except.pure]
-    · simp [akey, hc, semKey]
-  | pkg =>
-    refine ⟨{ cls := .pkg, epoch := b.epoch, major := b.major, minor := b.minor, patch := b.patch,
-              pre := b.pre, post := b.post, dev := b.dev, loc := b.loc }, ?_, rfl, ?_⟩
-    · simp [construct, Obj.toArgs, hc, mkPkg, initBase_nat, argIntOr0_nat, nonNeg_nat, argOptStr_optArg,
-        bind, Except.bind, pure, Except.pure]
-    · simp [akey, hc, pkgKey]
-
-theorem vcompare_congr {a b b' : Obj} (hc : b'.cls = b.cls) (hk : akey b' = akey b) :
-    vcompare a (.obj b') = vcompare a (.obj b) := by
-  simp only [vcompare, coerce, hc]
-  by_cases h : b.cls = a.cls <;> simp [h, bind, Except.bind, key_eq_akey b', key_eq_akey b, hk]
 
 /-- comparing with the tuple or list spelling of `b` gives the same answer as comparing with `b` -/
 theorem C07_spelling_tuple (a b : Obj) (h : a.cls = b.cls) :
